@@ -119,7 +119,7 @@ def prove(ctx, module, theorems, files):
     # that depend on it run it themselves and report that. Regenerating, building and copying the driver is one critical
     # section.
     with lake.Lock():
-        for name in ("extract_consts", "extract_guards", "extract_migration", "extract_validator", "extract_representor", "extract_substitutor", "extract_effects", "extract_entropy"):
+        for name in ("extract_consts", "extract_guards", "extract_migration", "extract_validator", "extract_representor", "extract_substitutor", "extract_effects", "extract_entropy", "extract_generator"):
             try:
                 import importlib
                 importlib.import_module("harness." + name).run()
